@@ -21,7 +21,11 @@ TOL = 1e-8
 ONE_STEP = "stacked_time/one-newton-step"
 CONFIGS = (("stacked_time", "first_order", "first_order"), ("stacked_time", "data", "first_order"),
            ("stacked_time", "first_order", "data"), ("stacked_time", "data", "data"), ("period_by_period", None, None),
-           (ONE_STEP, "first_order", "data"), (ONE_STEP, "data", "data"))
+           (ONE_STEP, "first_order", "data"), (ONE_STEP, "data", "data"),
+           # the short names of the two methods
+           ("stacked", "first_order", "first_order"), ("period", None, None))
+STACKED = ("stacked_time", "stacked")
+PBP = ("period_by_period", "period")
 
 
 def simulate(chk, m, db, span, method, terminal, guess):
@@ -34,7 +38,7 @@ def simulate(chk, m, db, span, method, terminal, guess):
         kw["terminal"], kw["initial_guess"] = terminal, guess
         sim, info = quiet(m.simulate, db, span, **kw)
         return sim, info
-    if method == "stacked_time":
+    if method in STACKED:
         kw["terminal"], kw["initial_guess"] = terminal, guess
     sim, info = quiet(m.simulate, db, span, **kw)
     if not all(s.is_success for s in info["exit_status"]):
@@ -64,7 +68,7 @@ def get(db, n, k):
 
 def frames_ok(chk, tag, desc, payload, info, breaks, method, tn):
     got = [(f.start - per(1) + 1, f.end - per(1) + 1, f.simulation_end - per(1) + 1) for f in info["frames"]]
-    if method == "period_by_period":
+    if method in PBP:
         exp = [(k, k, k) for k in range(1, tn + 1)]
     else:
         b = sorted(breaks)
@@ -137,7 +141,7 @@ def check_linear(chk, sc, out, path, cfg, tn):
         return True
     fr_ = frames_ok(chk, tag, desc, payload, info, out["breaks"], method, tn)
     if fr_ is not None and writeback_ok(chk, tag, desc, payload, sim, info, fr_, list(out["vars"])):
-        frame_clause_linear(chk, tag, desc, payload, out, db, sim, info, fr_, terminal if method == "stacked_time" else "data", tn, logv)
+        frame_clause_linear(chk, tag, desc, payload, out, db, sim, info, fr_, terminal if method in STACKED else "data", tn, logv)
     return True
 
 
@@ -276,6 +280,42 @@ def check_clause(chk, sc, out, cfg, tn):
     return True
 
 
+# ---- A1b: very small surprises ----------------------------------------------------------------------------------------
+def check_tiny(chk, sc, out, path0, tn):
+    """The unanticipated shocks of the scenario scaled by 1e-9: a surprise is a surprise however small - the frames are those of the
+    scenario - and, LinearRE being linear, the path is that of the same scenario without surprises (path0) up to about 1e-9."""
+    payload = {"kind": "linear-tiny", "sc": _plain(sc), "src": list(out["src"])}
+    tag = "stacked:%s:tiny-surprise" % sc["id"]
+    desc = "model %s stacked_time init=%s unanticipated=%s scaled by 1e-9 anticipated=%s" % (sc["id"], _plain(sc["init"]), sorted(sc["u"]), sorted(sc["a"]))
+    logv = set(out["logv"])
+    try:
+        m = model(out["src"], out["linear"])
+        db = ir.Databox.steady(m, ir.Span(per(-1), per(tn + 3)))
+        for j, n in enumerate(out["vars"]):
+            for k in (-1, 0):
+                db[n][per(k)] = level_of(n, logv, fr(path0[k][j]), False)
+        for j, n in enumerate(out["shocks"]):
+            for k in range(1, tn + 1):
+                db[n][per(k)] = float(fr(out["u"][k - 1][j])) * 1e-9
+                db["ant_" + n][per(k)] = float(fr(out["a"][k - 1][j]))
+        sim, info = simulate(chk, m, db, ir.Span(per(1), per(tn)), "stacked_time", "first_order", "first_order")
+    except Exception as ex:
+        chk.mismatch(tag + ":raised:" + type(ex).__name__, desc + ": raised %r" % (ex,), payload)
+        return False
+    if sim is None:
+        return False
+    if frames_ok(chk, tag, desc, payload, info, out["breaks"], "stacked_time", tn) is None:
+        return True
+    for j, n in enumerate(out["vars"]):
+        for k in range(1, tn + 1):
+            e = float(fr(path0[k][j]))
+            g = state_of(n, logv, get(sim, n, k))
+            if not abs(g - e) <= 1e-7 * max(1.0, abs(e)):
+                chk.mismatch(tag + ":path", desc + ": %s in period %d is %r, without surprises %r" % (n, k, g, e), payload)
+                return True
+    return True
+
+
 # ---- A2: two variants in one call ---------------------------------------------------------------------------------
 _PM2 = {}
 
@@ -333,6 +373,7 @@ def run(chk):
     n = done = 0
     per_cfg = {}
     by_id = {}
+    by_key = {}
     i = 0
     for st in tlaval.parse_dump(dump, want=lambda b: "fin = TRUE" in b):
         sc, out, path = st["sc"], st["out"], dict(st["path"])
@@ -341,12 +382,14 @@ def run(chk):
         i += 1
         if sc["id"] in ("L2", "L9"):
             by_id.setdefault(sc["id"], []).append((sc, out, path))
+        if sc["id"] in ("L2", "L3", "L6"):
+            by_key.setdefault((sc["id"], repr(_plain(sc["init"])), repr(sorted(sc["a"]))), {})[repr(sorted(sc["u"]))] = (sc, out, path)
         for ci, cfg in enumerate(CONFIGS):
-            if cfg[0] == "period_by_period" and out["fwd"] != 0:
+            if cfg[0] in PBP and out["fwd"] != 0:
                 continue
             if cfg[0] == ONE_STEP and not out["linear"]:
                 continue            # L6 is linear in logs only: one step is not enough
-            if not thorough and cfg[0] in ("stacked_time", ONE_STEP) and ci != 0 and (i + ci) % 4 != 0:
+            if not thorough and cfg[0] in ("stacked_time", "stacked", "period", ONE_STEP) and ci != 0 and (i + ci) % 4 != 0:
                 continue
             ok = check_linear(chk, sc, out, path, cfg, 4)
             n += 1
@@ -356,6 +399,19 @@ def run(chk):
             chk.sample({"scenario": _plain(sc), "source": list(out["src"]), "spec_path": {str(k): _plain(v) for k, v in sorted(path.items())},
                         "frame_breaks": sorted(out["breaks"])})
     os.remove(dump)
+    # very small surprises: every scenario with surprises after the first period, against the same scenario without surprises
+    ntiny = 0
+    for key_, fam in sorted(by_key.items()):
+        if "[]" not in fam:
+            continue
+        for ukey, (sc_, out_, path_) in sorted(fam.items()):
+            if any(b > 1 for b in out_["breaks"]) and (thorough or ntiny < 12):
+                check_tiny(chk, sc_, out_, fam["[]"][2], 4)
+                ntiny += 1
+    if not ntiny:
+        raise MachineryError("LinearREMC: no scenario for the small-surprise check")
+    chk.notes["small_surprise_simulations"] = ntiny
+    chk.replayed += ntiny
     # two variants in one call: the k-th scenario of one model with a scenario of the other model whose surprises fall in other periods
     nv = 0
     for lst in by_id.values():
@@ -382,7 +438,7 @@ def run(chk):
         if not out["holds"]:
             raise MachineryError("StackedMC: certificate false in dump")
         for cfg in CONFIGS:
-            if cfg[0] == ONE_STEP or (cfg[0] == "period_by_period" and sc["model"] != "T1"):
+            if cfg[0] == ONE_STEP or (cfg[0] in PBP and sc["model"] != "T1"):
                 continue
             ok = (check_clause if sc["model"] == "T3" else check_exact)(chk, sc, out, cfg, 3)
             n += 1
